@@ -176,25 +176,38 @@ func ZZ_C03_Resume() {
 	}()
 	var out []packets.Packet
 	var unacked []packets.PacketID
+	var relStage []bool
 	pubs := 0
 	for round := 0; round <= M+1; round++ {
 		zzrt.Yield()
 		for _, p := range zzDrain(c) {
 			out = append(out, p)
-			if pub, ok := p.(*packets.Publish); ok {
-				unacked = append(unacked, pub.PacketID)
+			switch x := p.(type) {
+			case *packets.Publish:
+				unacked = append(unacked, x.PacketID)
+				relStage = append(relStage, false)
 				pubs++
+			case *packets.Pubrel:
+				// a QoS 2 exchange whose PUBREL is retransmitted still holds its
+				// identifier and its place in the window until PUBCOMP
+				unacked = append(unacked, x.PacketID)
+				relStage = append(relStage, true)
 			}
 		}
-		// the window: unacknowledged QoS>0 PUBLISH packets on this connection
+		// the window: QoS>0 exchanges not completed on this connection
 		zzrt.Assert(len(unacked) <= int(maxInflight), "resume-respects-receive-maximum")
 		zzrt.Assert(c.pl.used == uint16(len(unacked)), "limiter-counts-retransmitted-publishes")
 		if finished {
 			break
 		}
 		if len(unacked) > 0 {
-			c.pubackHandler(&packets.Puback{PacketID: unacked[0]})
+			if relStage[0] {
+				c.pubcompHandler(&packets.Pubcomp{PacketID: unacked[0]})
+			} else {
+				c.pubackHandler(&packets.Puback{PacketID: unacked[0]})
+			}
 			unacked = unacked[1:]
+			relStage = relStage[1:]
 		}
 	}
 	zzrt.Assert(finished, "all-inflight-eventually-retransmitted")
@@ -216,10 +229,8 @@ func ZZ_C03_Resume() {
 	if pubs < int(maxInflight) {
 		newIDs := c.pl.pollPacketIDs(1)
 		zzrt.Assert(len(newIDs) == 1, "one-fresh-id")
-		for i := range ids {
-			if !isRel[i] {
-				zzrt.Assert(newIDs[0] != ids[i], "fresh-id-distinct-from-inflight")
-			}
+		for _, id := range unacked {
+			zzrt.Assert(newIDs[0] != id, "fresh-id-distinct-from-inflight")
 		}
 		q.script = []*queue.Elem{{MessageWithID: &queue.Publish{Message: &gmqtt.Message{Topic: "n", QoS: 1}}}}
 		_, err := c.pollNewMessages(newIDs)
